@@ -31,7 +31,7 @@ Set_(n, l) == listing' = [listing EXCEPT ![n] = l]
 
 AddLabel(n)   == Fresh(0) /\ Ins_(n, LabelLine("0000000000401000", "main"))
 AddBlank(n)   == Fresh(0) /\ Ins_(n, BlankLine)
-AddSection(n) == Fresh(0) /\ Ins_(n, SectionLine(".text"))
+AddSection(n) == Fresh(0) /\ \E nm \in {".text", ".init"} : Ins_(n, SectionLine(nm))
 AddHeader(n)  == Fresh(0) /\ \E h \in {"a.out:     file format elf64-x86-64", "blob.bin:     file format binary",
                                             "x.o:     file format elf32-iamcu"} : Ins_(n, HeaderLine(h))
 AddEllipsis(n) == Fresh(0) /\ Ins_(n, EllipsisLine)
